@@ -574,10 +574,16 @@ func (f *Func) reachTarget(
 // step by requiring args satisfy all required arguments.
 func (f *Func) callDirect(log hclog.Logger, argMap map[interface{}]reflect.Value) Result {
 	// If we have FuncOnce enabled and we've been called before, return
-	// the result we have cached.
-	if f.once && f.onceResult != nil {
-		log.Trace("returning cached result, FuncOnce enabled")
-		return *f.onceResult
+	// the result we have cached. We hold the lock until we return so that
+	// concurrent first calls can't both execute the function.
+	if f.once {
+		f.onceMu.Lock()
+		defer f.onceMu.Unlock()
+
+		if f.onceResult != nil {
+			log.Trace("returning cached result, FuncOnce enabled")
+			return *f.onceResult
+		}
 	}
 
 	// Initialize the struct we'll be populating
